@@ -1,3 +1,3 @@
 From Coq Require Import ExtrOcamlBasic.
-From OBB Require Import Model.MobAlloc Model.MobAllocSi4 Model.MobAllocHist Model.MobAllocAss Model.MobAllocCd.
-Extraction "model.ml" w_c20_decode w_c20_spec w_c20_si4 w_c20_render w_c20_hist w_c20_assign w_c20_rendercd.
+From OBB Require Import Model.MobAlloc Model.MobAllocSi4 Model.MobAllocHist Model.MobAllocAss Model.MobAllocCd Model.MobAllocBand.
+Extraction "model.ml" w_c20_decode w_c20_spec w_c20_si4 w_c20_render w_c20_hist w_c20_assign w_c20_rendercd w_c20_renderband.
